@@ -1284,6 +1284,73 @@ _ord_min = _ord_pick('min')
 _ord_max = _ord_pick('max')
 
 
+def _range_new_inclusive(m, st, fr, callee, args, dest_ty, term):
+    return ('adt', 'core::ops::RangeInclusive', 0, (args[0], args[1], ('bool', False)))
+
+
+def _range_contains(m, st, fr, callee, args, dest_ty, term):
+    """`contains` of the std ranges and of a pair of `Bound`s (the provided method of RangeBounds and the inherent ones):
+    the conjunction of the comparisons with the present bounds (IEEE comparisons: NaN belongs to no range)"""
+    rng, item = m.deref(st, args[0]), m.deref(st, args[1])
+    lo = hi = None     # (inclusive?, value)
+
+    def bound(b):
+        if b[0] == 'adt' and b[1] in (BOUND, 'core::ops::range::Bound'):
+            if b[2] == 2:
+                return ('none',)
+            return ('inc' if b[2] == 0 else 'exc', m.deref(st, b[3][0]))
+        return None
+    if rng[0] == 'tuple' and len(rng[1]) == 2:
+        lo, hi = bound(m.deref(st, rng[1][0])), bound(m.deref(st, rng[1][1]))
+    elif rng[0] == 'adt' and isinstance(rng[1], str):
+        nm = rng[1].replace('core::ops::range::', 'core::ops::')
+        f = rng[3]
+        if nm == 'core::ops::RangeInclusive' and len(f) == 3 and f[2] == ('bool', False):
+            lo, hi = ('inc', f[0]), ('inc', f[1])
+        elif nm == 'core::ops::Range' and len(f) == 2:
+            lo, hi = ('inc', f[0]), ('exc', f[1])
+        elif nm == 'core::ops::RangeFrom' and len(f) == 1:
+            lo, hi = ('inc', f[0]), ('none',)
+        elif nm == 'core::ops::RangeTo' and len(f) == 1:
+            lo, hi = ('none',), ('exc', f[0])
+        elif nm == 'core::ops::RangeToInclusive' and len(f) == 1:
+            lo, hi = ('none',), ('inc', f[0])
+    if lo is None or hi is None:
+        raise_unsupported('contains on %s' % T.show(rng)[:80])
+    conds = []
+    if lo[0] != 'none':
+        conds.append(op('le' if lo[0] == 'inc' else 'lt', lo[1], item))
+    if hi[0] != 'none':
+        conds.append(op('le' if hi[0] == 'inc' else 'lt', item, hi[1]))
+    if not conds:
+        return ('bool', True)
+    # decided like the short-circuit `lo <= x && x <= hi` it stands for: one atomic comparison per branch
+    out = []
+    work = [(st, 0)]
+    while work:
+        s_, i_ = work.pop()
+        if i_ == len(conds):
+            out.append((s_, ('bool', True)))
+            continue
+        for s2, b_ in m.sx.fork_bool(s_, conds[i_]):
+            if b_:
+                work.append((s2, i_ + 1))
+            else:
+                out.append((s2, ('bool', False)))
+    return out
+
+
+def _rangebounds_contains(m, st, fr, callee, args, dest_ty, term):
+    """the provided RangeBounds::contains: decided for the std ranges / Bound pairs, an unmodelled callee otherwise"""
+    from .symex import Unsupported
+    try:
+        return _range_contains(m, st, fr, callee, args, dest_ty, term)
+    except Unsupported:
+        key = m.key(callee)
+        st.unknowns.append((key, m.sx.where(fr, term)))
+        return ('unknown', key)
+
+
 def _into_inner(m, st, fr, callee, args, dest_ty, term):
     v = args[0]
     if v[0] == 'sym':
@@ -1512,6 +1579,13 @@ MODELS = {
     'core::ops::Deref::deref': _deref_container,
     'core::ops::DerefMut::deref_mut': _deref_container,
     'core::ops::RangeInclusive::into_inner': _into_inner,
+    'core::ops::RangeInclusive::new': _range_new_inclusive,
+    'core::ops::RangeBounds::contains': _rangebounds_contains,
+    'core::ops::RangeInclusive::contains': _range_contains,
+    'core::ops::Range::contains': _range_contains,
+    'core::ops::RangeFrom::contains': _range_contains,
+    'core::ops::RangeTo::contains': _range_contains,
+    'core::ops::RangeToInclusive::contains': _range_contains,
     'approx::AbsDiffEq::abs_diff_eq': _approx('abs_diff_eq'),
     'approx::AbsDiffEq::abs_diff_ne': _approx('abs_diff_ne'),
     'approx::RelativeEq::relative_ne': _approx('relative_ne'),
